@@ -52,7 +52,7 @@ class Collector:
         if api in SUBS and not extra_defs:
             idx = list(range(len(lines)))
             r = self.rng.fork(family)
-            idx = r.shuffle(idx)[:self.cap]
+            idx = r.shuffle(idx)[:(1 if "corpus" in family else self.cap)]
             for i in idx:
                 self.lines.append(("%d %d %s" % (SUBS[api], self.maxk, lines[i]), api, keyfn))
         return [None] * len(lines), [0] * len(lines)
@@ -108,7 +108,12 @@ def run(ctx):
         inner = gen.cfg_line(c) + (" %d " % (deep % 2) if api == "tree" else " ") + vlib.mat_line(M)
         col.lines.append(("%d 0 %s" % (SUBS[api], inner), api, None))
         deep += 1
-    lines = [l for l, _, _ in col.lines]
+    evaluate(ctx, col.lines)
+
+
+def evaluate(ctx, items):
+    """run `tlimit` cases (line, api, keyfn) on the assertion + sanitizer build with the injected clock and judge them"""
+    lines = [l for l, _, _ in items]
     exe = ctx.drive("dbg")
     env = dict(os.environ)
     env["ASAN_OPTIONS"] = "detect_leaks=1:allocator_may_return_null=1"
@@ -119,7 +124,7 @@ def run(ctx):
     crashed = {i: (rc, err) for i, rc, err in crashes}
     ctx.evaluations += len(lines)
     runs = timeouts = 0
-    for i, (line, api, keyfn) in enumerate(col.lines):
+    for i, (line, api, keyfn) in enumerate(items):
         fam = ctx.families.setdefault("tlimit:" + api, {"cases": 0, "injected_runs": 0, "timeouts": 0, "rejected": 0,
                                                          "crashes": 0, "codes": {}})
         fam["cases"] += 1
@@ -130,7 +135,7 @@ def run(ctx):
             fam["crashes"] += 1
             inner = line.split(None, 2)[2]
             site = keyfn(inner, "crash") if keyfn else inner
-            ck = c11.crash_key(rc, err)
+            ck = vlib.refine_crash_key(c11.crash_key(rc, err), api, inner)
             ctx.violate("tlimit:%s|crash|%s" % (api, site if site != inner else ck),
                         "the process died under clock injection (exit %s): %s" % (rc, ck), "tlimit", line, None, "crash", "dbg", (), err)
             continue
